@@ -30,7 +30,7 @@ func init() {
 			"different type, unsupported types, struct mismatch; oracle = reference merge clauses on reflection snapshots; non-trivial = at least one property set on either side",
 		Assumptions: []string{"reading D11: 'unsupported' is judged on to's non-empty type; hosts carry specific type names (Note, Person) or none"},
 		Bound: func(tier string) string {
-			return "single properties x 4 x 4 and property pairs x 16 on 7 (to,from) kinds; nil matrix; refusal grid (same in both tiers)"
+			return map[string]string{"quick": "", "thorough": "property triples x 64 combinations; "}[tier] + "single properties x 4 x 4 and property pairs x 16 on 7 (to,from) kinds; nil matrix; refusal grid; per property up to 5 further value pairs (same identities objectified / permuted / shrunk, 17 and 33 members, tag-only and last-byte text changes, instants at and before the epoch, sub-second change)"
 		},
 		DeadlineQuick: 5 * time.Minute,
 		Run:           c18Run,
@@ -38,10 +38,115 @@ func init() {
 }
 
 // c18Value builds the `side` ("to"/"from") variant of a value for field f; the two sides always differ when the kind allows.
-func c18Value(f universe.Field, side string, salt string) reflect.Value {
+func c18Value(f universe.Field, side string, salt string, variant int) reflect.Value {
 	iri := func(s string) ap.IRI { return ap.IRI("https://example.com/" + side + "/" + f.Term + "/" + s + salt) }
 	isTo := side == "to"
 	var v any
+	if variant > 0 {
+		// further (to, from) value pairs: same identities in another presentation or order, instants around the epoch,
+		// texts that differ only in a tag or in their last byte, sizes around 16/32
+		same := func(s string) ap.IRI { return ap.IRI("https://example.com/same/" + f.Term + "/" + s) }
+		long := func(n int, objects, reversed bool) ap.ItemCollection {
+			l := make(ap.ItemCollection, n)
+			for i := range l {
+				k := i
+				if reversed {
+					k = n - 1 - i
+				}
+				if objects {
+					l[i] = &ap.Object{ID: same(fmt.Sprint(k)), Type: ap.NoteType}
+				} else {
+					l[i] = same(fmt.Sprint(k))
+				}
+			}
+			return l
+		}
+		switch f.Kind {
+		case universe.KItem:
+			switch variant {
+			case 1: // from holds the object to only names
+				v = ap.Item(same("x"))
+				if !isTo {
+					v = &ap.Object{ID: same("x"), Type: ap.NoteType, Name: ap.NaturalLanguageValues{{Ref: "-", Value: ap.Content("objectified")}}}
+				}
+			case 2: // from only names the object to holds
+				v = ap.Item(&ap.Actor{ID: same("x"), Type: ap.PersonType})
+				if !isTo {
+					v = same("x")
+				}
+			case 3:
+				v = ap.Item(same("x"))
+				if !isTo {
+					v = ap.ItemCollection{same("x"), same("y")}
+				}
+			default:
+				return reflect.Value{}
+			}
+			x := reflect.New(f.Type).Elem()
+			x.Set(reflect.ValueOf(v))
+			return x
+		case universe.KItems:
+			switch variant {
+			case 1: // permuted
+				v = long(2, false, !isTo)
+			case 2: // objectified
+				v = long(2, !isTo, false)
+			case 3: // shrunk
+				v = long(map[bool]int{true: 3, false: 1}[isTo], false, false)
+			case 4: // 17 members, reversed and objectified
+				v = long(17, !isTo, !isTo)
+			case 5: // 33 vs 32 members
+				v = long(map[bool]int{true: 33, false: 32}[isTo], false, false)
+			default:
+				return reflect.Value{}
+			}
+		case universe.KNLV:
+			switch variant {
+			case 1: // only the tag differs
+				v = ap.NaturalLanguageValues{{Ref: map[bool]ap.LangRef{true: "en", false: "fr"}[isTo], Value: ap.Content("same text")}}
+			case 2: // from has one more entry
+				v = ap.NaturalLanguageValues{{Ref: "-", Value: ap.Content("same text")}}
+				if !isTo {
+					v = ap.NaturalLanguageValues{{Ref: "-", Value: ap.Content("same text")}, {Ref: "en", Value: ap.Content("more")}}
+				}
+			case 3: // long texts that differ in the last byte
+				v = ap.NaturalLanguageValues{{Ref: "-", Value: ap.Content(universe.LongText(1024) + map[bool]string{true: "1", false: "2"}[isTo])}}
+			default:
+				return reflect.Value{}
+			}
+		case universe.KTime:
+			switch variant {
+			case 1:
+				v = map[bool]time.Time{true: universe.T1, false: time.Date(1969, 7, 20, 20, 17, 40, 0, time.UTC)}[isTo]
+			case 2:
+				v = map[bool]time.Time{true: universe.T1, false: time.Unix(0, 0).UTC()}[isTo]
+			case 3:
+				v = map[bool]time.Time{true: time.Date(1900, 1, 1, 0, 0, 0, 0, time.UTC), false: universe.T1}[isTo]
+			case 4:
+				v = map[bool]time.Time{true: universe.T1, false: universe.T1.Add(500 * time.Millisecond)}[isTo]
+			default:
+				return reflect.Value{}
+			}
+		case universe.KDuration:
+			if variant > 1 {
+				return reflect.Value{}
+			}
+			v = map[bool]time.Duration{true: 90 * time.Second, false: -30 * time.Second}[isTo]
+		case universe.KFloat:
+			if variant > 1 {
+				return reflect.Value{}
+			}
+			v = map[bool]float64{true: 2.25, false: 1e-9}[isTo]
+		case universe.KUint:
+			if variant > 1 {
+				return reflect.Value{}
+			}
+			v = map[bool]uint{true: 3, false: 1 << 40}[isTo]
+		default:
+			return reflect.Value{}
+		}
+		return reflect.ValueOf(v)
+	}
 	switch f.Kind {
 	case universe.KItem:
 		if isTo {
@@ -147,9 +252,10 @@ var c18Kinds = []c18Kind{
 }
 
 type c18Setting struct {
-	field universe.Field
-	onTo  bool
-	onFr  bool
+	field   universe.Field
+	onTo    bool
+	onFr    bool
+	variant int
 }
 
 func c18Build(k c18Kind, side string, sets []c18Setting, bg string) reflect.Value {
@@ -166,7 +272,7 @@ func c18Build(k c18Kind, side string, sets []c18Setting, bg string) reflect.Valu
 	for _, s := range sets {
 		focus[s.field.Index] = true
 		if (side == "to" && s.onTo) || (side == "from" && s.onFr) {
-			if v := c18Value(s.field, side, ""); v.IsValid() {
+			if v := c18Value(s.field, side, "", s.variant); v.IsValid() {
 				e.Field(s.field.Index).Set(v)
 			}
 		}
@@ -176,7 +282,7 @@ func c18Build(k c18Kind, side string, sets []c18Setting, bg string) reflect.Valu
 			if focus[f.Index] {
 				continue
 			}
-			if v := c18Value(f, side, "-bg"); v.IsValid() {
+			if v := c18Value(f, side, "-bg", 0); v.IsValid() {
 				e.Field(f.Index).Set(v)
 			}
 		}
@@ -264,8 +370,22 @@ func c18Run(c *engine.Ctx) {
 						return fmt.Sprintf("%s: %s set on to=%v from=%v, other properties: %s", k.name, f.Term, cb[0], cb[1], bg)
 					}, func(t *engine.T) {
 						t.Distinct(cb[0] || cb[1] || bg != "none")
-						c18Judge(t, k, []c18Setting{{f, cb[0], cb[1]}}, bg)
+						c18Judge(t, k, []c18Setting{{f, cb[0], cb[1], 0}}, bg)
 					})
+				}
+			}
+			// further value pairs (both sides set; from only): same identities presented or ordered differently, epoch instants ...
+			for variant := 1; c18Value(f, "to", "", variant).IsValid(); variant++ {
+				for _, cb := range combos[1:3] {
+					for _, bg := range []string{"none", "both"} {
+						f, cb, bg, variant := f, cb, bg, variant
+						c.Do("C18|"+k.name, func() string {
+							return fmt.Sprintf("%s: %s (value pair #%d) set on to=%v from=%v, other properties: %s", k.name, f.Term, variant, cb[0], cb[1], bg)
+						}, func(t *engine.T) {
+							t.Distinct(true)
+							c18Judge(t, k, []c18Setting{{f, cb[0], cb[1], variant}}, bg)
+						})
+					}
 				}
 			}
 		}
@@ -278,9 +398,33 @@ func c18Run(c *engine.Ctx) {
 							return fmt.Sprintf("%s: %s (to=%v from=%v) and %s (to=%v from=%v)", k.name, f1.Term, c1[0], c1[1], f2.Term, c2[0], c2[1])
 						}, func(t *engine.T) {
 							t.Distinct(true)
-							c18Judge(t, k, []c18Setting{{f1, c1[0], c1[1]}, {f2, c2[0], c2[1]}}, "none")
+							c18Judge(t, k, []c18Setting{{f1, c1[0], c1[1], 0}, {f2, c2[0], c2[1], 0}}, "none")
 						})
 					}
+				}
+			}
+		}
+		if c.Quick() {
+			continue
+		}
+		// thorough: property triples x 64 set/unset combinations
+		for i := 0; i < len(fields); i++ {
+			for j := i + 1; j < len(fields); j++ {
+				for l := j + 1; l < len(fields); l++ {
+					f1, f2, f3 := fields[i], fields[j], fields[l]
+					c.Do("C18|"+k.name, func() string {
+						return fmt.Sprintf("%s: %s, %s and %s in all 64 set/unset combinations", k.name, f1.Term, f2.Term, f3.Term)
+					}, func(t *engine.T) {
+						t.Distinct(true)
+						for _, c1 := range combos {
+							for _, c2 := range combos {
+								for _, c3 := range combos {
+									c18Judge(t, k, []c18Setting{{f1, c1[0], c1[1], 0}, {f2, c2[0], c2[1], 0}, {f3, c3[0], c3[1], 0}}, "none")
+								}
+							}
+						}
+						t.AddEvals(63, 63)
+					})
 				}
 			}
 		}
